@@ -618,10 +618,12 @@ class Model:
             idx, tid = struct.unpack("<ii", payload)
             tgt = th.proc.threads.get(tid)
             if tgt is None:
-                for p in th.proc.loom.procs_ordered:
-                    if tid in p.threads:
-                        tgt = p.threads[tid]
-                        break
+                # "search the thread in other processes of the loom if not found in the
+                # current one": which one, when several of them have that TID, is not stated
+                cands = [p.threads[tid] for p in th.proc.loom.procs_ordered if tid in p.threads]
+                if len(cands) > 1:
+                    raise Reject("unclaimed", "remote affinity: TID names threads of several other processes")
+                tgt = cands[0] if cands else None
             if tgt is None:
                 raise Reject("event", "remote affinity: unknown thread")
             if tgt.state in (ST_DEAD, ST_UNKNOWN) or tgt.cpu is None:
